@@ -295,6 +295,7 @@ func c1profile3() []*c1pkg {
 	add("named types", "type Vec []float64\ntype Reg map[string]int\ntype ID int\ntype Ref = S\nv := Vec{1, 2}\nv = append(v, 3)\nr := Reg{\"a\": 1}\nr[\"b\"] = 2\nvar id ID = 7\nq := &Ref{n: 4}\nfmt.Println(len(v), v[2]/2, len(r), r[\"b\"], id+1, q.N())\n")
 	add("local type, function literal, local type again", "type pt struct {\n\tx int\n\tname string\n}\na := &pt{x: 3, name: \"pt\"}\nsq := func(v int) int {\n\treturn v * v\n}\nb := &pt{x: sq(4), name: a.name}\nfmt.Println(sq(a.x), a.name)\nfmt.Println(b.x, b.name)\ntype pair struct {\n\tl *pt\n\tr *pt\n}\nc := &pair{l: a, r: b}\nfmt.Println(c.l.x+c.r.x, sq(c.r.x))\n")
 	add("NaN and infinities in comparisons", "z := 0.0\nn := z / z\ni := 1 / z\nfmt.Println(n < 1, n <= 1, n > 1, n >= 1, n == n, n != n, 1 <= n, 1 >= n)\nfmt.Println(i > 1e308, -i < 0, i == i, i >= i, i <= -i)\nlo, hi, v := 0.0, 10.0, n\nif v >= lo && v <= hi {\n\tfmt.Println(\"in range\")\n} else {\n\tfmt.Println(\"out of range\")\n}\n")
+	add("nil on the left and in a case clause", "var s []int\nvar m map[string]int\nvar p *S\nvar f func() int\nvar e error\nfmt.Println(nil == s, nil == m, nil == p, nil == f, nil == e, nil != s, nil != p)\nfor i := 0; i < 2; i++ {\n\tswitch p {\n\tcase nil:\n\t\tfmt.Println(\"nil p\")\n\tdefault:\n\t\tfmt.Println(\"set p\", p.n)\n\t}\n\tswitch {\n\tcase nil == m:\n\t\tfmt.Println(\"nil m\")\n\tcase nil != m:\n\t\tfmt.Println(\"set m\", len(m))\n\t}\n\tp = &S{n: 4}\n\tm = map[string]int{}\n}\n")
 	add("nil comparisons", "var s []int\nvar m map[string]int\nvar p *S\nvar f func() int\nvar e error\nfmt.Println(s == nil, m == nil, p == nil, f == nil, e == nil)\ns = []int{}\nm = map[string]int{}\np = &S{}\nfmt.Println(s == nil, m == nil, p == nil, s != nil, p != nil)\n")
 	add("multi-assign and swap", "a, b, c := 1, \"s\", 2.5\na, d := 4, true\nx, y := 1, 2\nx, y = y, x\nq := []int{1, 2}\nq[0], q[1] = q[1], q[0]\nfmt.Println(a, b, c, d, x, y, q[0], q[1])\n")
 	add("const and iota", "const a = 3\nconst (\n\tb = iota\n\tc\n\td = iota * 10\n\te\n)\nconst f, g = 1, \"s\"\nfmt.Println(a, b, c, d, e, f, g, a+c)\n")
